@@ -562,7 +562,7 @@ def triage(ctx, name, results, absorbed, samples, frontier=False):
 # ------------------------------------------------------------------ run
 def run(ctx):
     ctx.level = "proof"
-    ctx.lean_stage(["emph_chars", "entities"], ["Verif.Props.C02", "Verif.Props.Coalesce", "Verif.Props.LinkRecog", "Verif.Props.InlineRecog", "Verif.Props.Emphasis", "Verif.Props.InlineLoop", "Verif.Props.InlineLoop2", "Verif.Props.RegenLeaf", "Verif.Props.RegenLeaf2", "Verif.Props.LeafBlocks2"])
+    ctx.lean_stage(["emph_chars", "entities"], ["Verif.Props.C02", "Verif.Props.Coalesce", "Verif.Props.LinkRecog", "Verif.Props.InlineRecog", "Verif.Props.Emphasis", "Verif.Props.InlineLoop", "Verif.Props.InlineLoop2", "Verif.Props.RegenLeaf", "Verif.Props.RegenLeaf2", "Verif.Props.LeafBlocks2", "Verif.Props.LeafBlocks2b"])
     import blocks
     blocks.linkrecog(ctx)      # *_reassembly, rehydrate_lossless_partial / rehydrate_excluded
     blocks.inlinerecog(ctx)    # angle / rawhtml / charref / backslash / codespan reassembly, codespan_text_roundtrip
